@@ -91,8 +91,8 @@ func c05Bodies() []string {
 }
 
 type c05Line struct {
-	text  string
-	depth int
+	text                                           string
+	depth                                          int
 	inLoop, inFunc, inProc, inHandler, inTypedFunc bool
 }
 
